@@ -13,18 +13,30 @@
 (* duration a dyadic number, so durations are whole milliseconds and the    *)
 (* `time + 5` lookups are decided exactly by the code's float arithmetic.   *)
 (*                                                                          *)
-(* An object is [id, k, t, nc, len, spans, dur, spec, bank, vol, cu]:       *)
+(* An object is [id, k, t, nc, len, spans, dur, hs, bank, abank, vol, cu,   *)
+(* file]:                                                                   *)
 (*   id    position in the file (its x coordinate identifies it afterwards) *)
 (*   k     "circle" | "slider" | "spinner" | "hold";  t start time          *)
 (*   nc    new-combo flag as parsed from the line                           *)
 (*   len/spans  slider: path length (a straight line) and span count        *)
 (*   dur   spinner / hold duration                                          *)
-(*   spec/bank, vol, cu   the sample as parsed: bank specified?, volume     *)
-(*         (0 = take the point's), custom index (0 = take the point's)      *)
+(*   hs    the hit-sound byte (2 whistle, 4 finish, 8 clap: one sample each *)
+(*         besides the normal one, in the order normal, finish, whistle,    *)
+(*         clap)                                                            *)
+(*   bank/abank  normal / addition bank of the bank info (0 = unspecified;  *)
+(*         an unspecified addition bank falls back to the normal one)       *)
+(*   vol, cu   volume (0 = take the point's), custom index (0 = the point's)*)
+(*   file  the bank info names a sample FILE: one file sample replaces the  *)
+(*         normal one and takes only its volume from the point              *)
+(*                                                                          *)
+(* Profile "base": up to MaxObjs objects over the full product alphabet.    *)
+(* Profile "wide": exactly MaxObjs objects over kinds x times with one      *)
+(* sample shape per case, sliders with three spans, all four modes, sample  *)
+(* points with custom indices 1 and 2.                                      *)
 (***************************************************************************)
 EXTENDS TimingLines
 
-CONSTANTS MaxObjs, TimesSet, EmitPost
+CONSTANTS MaxObjs, TimesSet, EmitPost, Profile
 
 \* ---- inputs ---------------------------------------------------------------------
 TL(tau, unin, bl, bank, vol, cu) ==
@@ -36,39 +48,61 @@ TimingSeq ==
        <<TL(0, TRUE, 400, 2, 60, 0), TL(2000, FALSE, -50, 2, 60, 0), TL(2810, FALSE, -50, 3, 30, 2)>>,
        <<TL(2000, TRUE, 800, 1, 100, 0), TL(2410, FALSE, -200, 3, 50, 0), TL(2010, FALSE, -200, 2, 70, 0)>>,
        <<TL(0, TRUE, 200, 3, 40, 5), TL(2010, TRUE, 400, 1, 80, 0), TL(4010, FALSE, -100, 2, 0, 0)>>,
-       <<>> >>
-TimingChoices == 1..Len(TimingSeq)
+       <<>>,
+       <<TL(0, TRUE, 400, 1, 100, 1), TL(2000, FALSE, -400, 2, 45, 2), TL(2410, FALSE, -25, 3, 5, 1), TL(3200, FALSE, -100, 1, 100, 7)>> >>
+\* (TimesSet = "tiny" is the every-change budget of the wide profile: fewer sections, breaks, modes and shapes)
+TimingChoices == IF TimesSet = "tiny" THEN {2, 4, 6} ELSE 1..Len(TimingSeq)
 
-Obj(id, k, t, nc, len, spans, dur, spec, bank, vol, cu) ==
+Obj(id, k, t, nc, len, spans, dur, s) ==
     [id |-> id, k |-> k, t |-> t, nc |-> nc, len |-> len, spans |-> spans, dur |-> dur,
-     spec |-> spec, bank |-> bank, vol |-> vol, cu |-> cu]
+     hs |-> s.hs, bank |-> s.bank, abank |-> s.abank, vol |-> s.vol, cu |-> s.cu, file |-> s.file]
 \* the object alphabet, without the id
 ObjKinds ==
-    { [k |-> "circle", len |-> 0, spans |-> 1, dur |-> 0], [k |-> "slider", len |-> 100, spans |-> 1, dur |-> 0],
-      [k |-> "slider", len |-> 200, spans |-> 2, dur |-> 0], [k |-> "spinner", len |-> 0, spans |-> 1, dur |-> 1000],
-      [k |-> "hold", len |-> 0, spans |-> 1, dur |-> 400] }
-ObjTimes == IF TimesSet = "small" THEN {0, 1000, 1005} ELSE {0, 1000, 1005, -500, 2000}
-ObjSamples == { [spec |-> FALSE, bank |-> 1, vol |-> 0, cu |-> 0], [spec |-> TRUE, bank |-> 3, vol |-> 25, cu |-> 1] }
+    IF Profile = "wide"
+    THEN { [k |-> "circle", len |-> 0, spans |-> 1, dur |-> 0], [k |-> "slider", len |-> 100, spans |-> 3, dur |-> 0],
+           [k |-> "spinner", len |-> 0, spans |-> 1, dur |-> 1000], [k |-> "hold", len |-> 0, spans |-> 1, dur |-> 400] }
+    ELSE { [k |-> "circle", len |-> 0, spans |-> 1, dur |-> 0], [k |-> "slider", len |-> 100, spans |-> 1, dur |-> 0],
+           [k |-> "slider", len |-> 200, spans |-> 2, dur |-> 0], [k |-> "spinner", len |-> 0, spans |-> 1, dur |-> 1000],
+           [k |-> "hold", len |-> 0, spans |-> 1, dur |-> 400] }
+ObjTimes == IF TimesSet \in {"small", "tiny"} THEN {0, 1000, 1005} ELSE {0, 1000, 1005, -500, 2000}
+Smp(hs, bank, abank, vol, cu, file) == [hs |-> hs, bank |-> bank, abank |-> abank, vol |-> vol, cu |-> cu, file |-> file]
+ObjSamples ==
+    IF Profile = "wide"
+    THEN { Smp(2, 0, 3, 0, 0, FALSE), Smp(14, 2, 0, 0, 1, FALSE), Smp(5, 3, 1, 70, 2, FALSE), Smp(8, 2, 3, 0, 4, TRUE) }
+         \cup (IF TimesSet = "tiny" THEN {} ELSE { Smp(0, 0, 0, 0, 0, FALSE), Smp(0, 0, 0, 35, 0, TRUE) })
+    ELSE { Smp(0, 0, 0, 0, 0, FALSE), Smp(0, 3, 0, 25, 1, FALSE) }
 
 RECURSIVE ObjSeqs(_)
 ObjSeqs(n) == IF n = 0 THEN {<<>>}
               ELSE LET Q == ObjSeqs(n - 1) IN
-                   Q \cup {Append(q, Obj(Len(q) + 1, o.k, t, nc, o.len, o.spans, o.dur, s.spec, s.bank, s.vol, s.cu)) :
+                   Q \cup {Append(q, Obj(Len(q) + 1, o.k, t, nc, o.len, o.spans, o.dur, s)) :
                                q \in {x \in Q : Len(x) = n - 1}, o \in ObjKinds, t \in ObjTimes, nc \in BOOLEAN, s \in ObjSamples}
+\* wide: exactly n objects, one sample shape for the whole case, combo flag only on the second object
+RECURSIVE WideSeqs(_, _)
+WideSeqs(n, s) == IF n = 0 THEN {<<>>}
+                  ELSE {Append(q, Obj(Len(q) + 1, o.k, t, Len(q) = 1, o.len, o.spans, o.dur, s)) :
+                            q \in WideSeqs(n - 1, s), o \in ObjKinds, t \in ObjTimes}
+ObjChoices == IF Profile = "wide" THEN UNION {WideSeqs(MaxObjs, s) : s \in ObjSamples} ELSE ObjSeqs(MaxObjs)
 
-BreakChoices == { <<>>, <<<<500, 900>>>>, <<<<100, 999>>, <<1200, 1999>>>>, <<<<1000, 1000>>>>, <<<<-800, -501>>>> }
-SMChoices == {500, 2000}                             \* slider multiplier in thousandths
-ModeChoices == {"osu", "mania"}
+BreakChoices == IF TimesSet = "tiny" THEN { <<>>, <<<<100, 999>>, <<1200, 1999>>>>, <<<<1000, 1000>>>> }
+                ELSE { <<>>, <<<<500, 900>>>>, <<<<100, 999>>, <<1200, 1999>>>>, <<<<1000, 1000>>>>, <<<<-800, -501>>>> }
+SMChoices == IF Profile = "wide" THEN {1000} ELSE {500, 2000}      \* slider multiplier in thousandths
+ModeChoices == IF Profile = "wide" THEN (IF TimesSet = "tiny" THEN {"taiko", "catch"} ELSE {"osu", "taiko", "catch", "mania"})
+               ELSE {"osu", "mania"}
 
 VARIABLES inp, out, pdone
 pvars == <<inp, out, pdone>>
 
 \* ---- the processing -----------------------------------------------------------------
 Gen0(m) == [mode |-> m, bank |-> 0, vol |-> 100]
-CpOf(i) == LET RECURSIVE D(_, _)
-               D(s, ls) == IF ls = <<>> THEN Flush(s).cp ELSE D(DecLine(s, Head(ls), Gen0(i.mode)), Tail(ls))
-           IN D(EmptySt, IF i.shift = 0 THEN TimingSeq[i.timing]
-                         ELSE [j \in 1..Len(TimingSeq[i.timing]) |-> [TimingSeq[i.timing][j] EXCEPT !.tau = @ + 2 * i.shift]])
+CpOfRaw(timing, mode, shift) ==
+    LET RECURSIVE D(_, _)
+        D(s, ls) == IF ls = <<>> THEN Flush(s).cp ELSE D(DecLine(s, Head(ls), Gen0(mode)), Tail(ls))
+    IN D(EmptySt, IF shift = 0 THEN TimingSeq[timing]
+                  ELSE [j \in 1..Len(TimingSeq[timing]) |-> [TimingSeq[timing][j] EXCEPT !.tau = @ + 2 * shift]])
+\* the unshifted decodes, computed once (TLC evaluates a constant definition a single time)
+CpTab == [tm \in (1..Len(TimingSeq)) \X {"osu", "taiko", "catch", "mania"} |-> CpOfRaw(tm[1], tm[2], 0)]
+CpOf(i) == IF i.shift = 0 THEN CpTab[<<i.timing, i.mode>>] ELSE CpOfRaw(i.timing, i.mode, i.shift)
 
 \* stable sort by start time (insertion of each object after all objects with time <= its own)
 RECURSIVE InsertSorted(_, _)
@@ -88,21 +122,44 @@ Sweep(objs, brks, cur, acc) ==
         force == c2 > cur
     IN Sweep(Tail(objs), brks, c2, Append(acc, IF h.k = "hold" THEN h ELSE [h EXCEPT !.nc = @ \/ force]))
 
-\* SamplePoint::apply on the abstract sample
-ApplyPt(o, sp) == [bank |-> IF o.spec THEN o.bank ELSE sp.bank,
-                   vol |-> IF o.vol = 0 THEN Clamp(sp.vol, 0, 100) ELSE o.vol,
-                   cu |-> IF o.cu = 0 THEN sp.custom ELSE o.cu]
+\* the samples of an object as PARSED (SampleBankInfo::convert_sound_type): the normal sample (or
+\* the file sample), then one addition per hit-sound bit in the order finish, whistle, clap
+HasBit(hs, b) == (hs \div b) % 2 = 1
+OneSmp(name, b, vol, cu, layered) ==
+    [name |-> name, bank |-> IF b = 0 THEN 1 ELSE b, spec |-> b # 0, vol |-> vol, cu |-> cu,
+     suffix |-> IF cu >= 2 THEN cu ELSE 0, layered |-> layered]
+ParsedSamples(o) ==
+    LET ab == IF o.abank # 0 THEN o.abank ELSE o.bank
+        first == IF o.file THEN OneSmp("file", 0, o.vol, 1, FALSE)
+                 ELSE OneSmp("normal", o.bank, o.vol, o.cu, o.hs # 0 /\ ~HasBit(o.hs, 1))
+        add(b, name) == IF HasBit(o.hs, b) THEN <<OneSmp(name, ab, o.vol, o.cu, FALSE)>> ELSE <<>>
+    IN <<first>> \o add(4, "finish") \o add(2, "whistle") \o add(8, "clap")
+
+\* SamplePoint::apply on one abstract sample
+ApplyOne(s, sp) ==
+    IF s.name # "file"
+    THEN [s EXCEPT !.cu = IF @ = 0 THEN sp.custom ELSE @,
+                   !.suffix = IF s.cu = 0 /\ sp.custom >= 2 THEN sp.custom ELSE @,
+                   !.vol = IF @ = 0 THEN Clamp(sp.vol, 0, 100) ELSE @,
+                   !.bank = IF s.spec THEN @ ELSE sp.bank,
+                   !.spec = TRUE]
+    ELSE [s EXCEPT !.bank = 1, !.suffix = 0, !.vol = IF @ = 0 THEN Clamp(sp.vol, 0, 100) ELSE @,
+                   !.cu = 1, !.spec = FALSE, !.layered = FALSE]
+ApplyPt(o, sp) == LET ps == ParsedSamples(o) IN [j \in 1..Len(ps) |-> ApplyOne(ps[j], sp)]
 \* sample_point_at(time) with times in milliseconds (control points carry tau = 2 ms)
 SmpAtMs(cp, ms) == SmpAt(cp, 2 * ms)
 
-PostOne(o0, cp, sm) ==
-    LET \* a slider's own bank info is read "banks only": its samples never carry a volume or custom index
-        o   == IF o0.k = "slider" THEN [o0 EXCEPT !.vol = 0, !.cu = 0] ELSE o0
+PostOne(o0, cp, sm, mode) ==
+    LET \* a slider's own bank info is read "banks only": its samples never carry a volume, custom index or file
+        o   == IF o0.k = "slider" THEN [o0 EXCEPT !.vol = 0, !.cu = 0, !.file = FALSE] ELSE o0
         bl  == BeatLenAt(cp, 2 * o.t)
         svm == SvAt(cp, 2 * o.t)
-        \* velocity = 100 * multiplier * velocity point / beat length, in MILLIONTHS of px/ms
-        \* (the per-mode clamp of the velocity point is a no-op on [0.1, 10])
-        vel == (100 * sm * svm) \div bl
+        \* get_precision_adjusted_beat_len: -100 / velocity as a beat length, clamped per mode, over 100;
+        \* in thousandths: 1000000 / svm clamped to [100, 100000] (osu, catch) or [100, 10000] (taiko, mania)
+        mult == Clamp(1000000 \div svm, 100, IF mode \in {"osu", "catch"} THEN 100000 ELSE 10000)
+        \* velocity = 100 * multiplier / (beat length * mult), in MILLIONTHS of px/ms
+        \* (written so that every intermediate value fits TLC's 32-bit integers)
+        vel == (100 * sm * 1000) \div ((bl * mult) \div 1000)
         dur == IF o.k = "slider" THEN (o.spans * o.len * 1000000) \div vel ELSE o.dur
         end == o.t + dur
     IN [id |-> o.id, k |-> o.k, t |-> o.t, nc |-> o.nc,
@@ -123,7 +180,7 @@ ParsedNc(objs) ==
 Post(i) ==
     LET cp == CpOf(i)
         s1 == Sweep(SortStable(ParsedNc(i.objs), <<>>), i.breaks, 1, <<>>)
-    IN [j \in 1..Len(s1) |-> PostOne(s1[j], cp, i.sm)]
+    IN [j \in 1..Len(s1) |-> PostOne(s1[j], cp, i.sm, i.mode)]
 
 \* ---- shifting every time of the input by k milliseconds -----------------------------
 ShiftIn(i, k) ==
@@ -132,12 +189,12 @@ ShiftIn(i, k) ==
               !.breaks = [j \in 1..Len(@) |-> <<@[j][1] + k, @[j][2] + k>>]]
 ShiftOut(o, k) == [j \in 1..Len(o) |-> [o[j] EXCEPT !.t = @ + k]]
 
-Init_ == /\ inp \in [timing : TimingChoices, objs : ObjSeqs(MaxObjs), breaks : BreakChoices, sm : SMChoices, mode : ModeChoices, shift : {0}]
+Init_ == /\ inp \in [timing : TimingChoices, objs : ObjChoices, breaks : BreakChoices, sm : SMChoices, mode : ModeChoices, shift : {0}]
          /\ out = <<>> /\ pdone = FALSE
          \* the variables of the extended TimingLines module are not used here
          /\ gen = Gen0("osu") /\ hist = <<>> /\ st = EmptySt /\ done = FALSE
 Compute == /\ ~pdone /\ pdone' = TRUE /\ out' = Post(inp) /\ UNCHANGED <<inp, vars>>
-           /\ (EmitPost => PrintT("CASE " \o ToJson([inp |-> inp, out |-> Post(inp)])))
+           /\ (EmitPost => PrintT("CASE " \o ToJson([inp |-> inp, out |-> out'])))
 ASSUME EmitPost => PrintT("ALPHA " \o ToJson(TimingSeq))
 
 PSpec == Init_ /\ [][Compute]_<<pvars, vars>>
@@ -162,10 +219,10 @@ ClosedForms == pdone =>
         LET o == out[j]
             src == CHOOSE x \in {inp.objs[n] : n \in 1..Len(inp.objs)} : x.id = o.id
             cp == CpOf(inp)
-        IN /\ o.vel * BeatLenAt(cp, 2 * o.t) = 100 * inp.sm * SvAt(cp, 2 * o.t)
+        IN /\ (Profile # "wide") => o.vel * BeatLenAt(cp, 2 * o.t) = 100 * inp.sm * SvAt(cp, 2 * o.t)
            /\ o.dur * o.vel = src.spans * src.len * 1000000
 
 \* shifting all times by a whole number of milliseconds shifts the result and changes nothing else
 ShiftInvariant == pdone =>
-    \A k \in {-1000000, -7, 1, 1000000} : Post(ShiftIn(inp, k)) = ShiftOut(out, k)
+    \A k \in (IF Profile = "wide" THEN {-7, 1000000} ELSE {-1000000, -7, 1, 1000000}) : Post(ShiftIn(inp, k)) = ShiftOut(out, k)
 =============================================================================
